@@ -17,6 +17,8 @@ ALWAYS_COMPLEX = {"fft", "ifft", "fft2", "ifft2", "fftn", "ifftn", "rfft", "rfft
 DATA_DEPENDENT = {"real_if_close", "linalg.eigh", "linalg.svd", "linalg.slogdet", "linalg.qr", "linalg.eig"}
 # a REAL argument can give a COMPLEX result depending on the values (the other DATA_DEPENDENT entries return tuples of mixed kinds)
 VALUE_DEPENDENT_KIND = {"linalg.eig"}
+# repo primitives whose result kind is chosen by a (non-differentiable) dtype parameter: either kind for either argument kind
+PARAM_KIND = {"autograd.numpy.numpy_wrapper._astype"}
 REAL_ONLY_RESULT_FUNCS = {"real", "imag", "angle", "abs", "absolute", "fabs", "zeros", "ones", "eye", "arange", "linspace_not", "floor", "ceil", "sign",
                           "argsort", "argmax", "argmin", "tri", "tril_indices", "isfinite", "logical_and", "logical_or", "logical_not",
                           "equal", "not_equal", "greater", "less", "greater_equal", "less_equal", "shape", "ndim", "size", "prod_not", "irfft", "irfft2", "irfftn", "linalg.norm", "var", "std"}
@@ -73,6 +75,12 @@ class Kind:
             r, pre = resolve_callee(self.ev, c)
             if r is not None and r.qual.rsplit(".", 1)[-1] == "iscomplexobj" and c.args:
                 x = c.args[0]
+            if r is not None and is_numpy_callable(r) and base_name(r) == "can_cast" and len(c.args) >= 2 and not c.kw:
+                # can_cast(complex dtype, real dtype) is False under every casting rule short of "unsafe"
+                ka, kb = self.dtype_kind(c.args[0]), self.dtype_kind(c.args[1])
+                if ka == "C" and kb == "R":
+                    return False
+                return None
         if c.op == "sub" and c.idx.op == "const" and c.idx.value == 3 and c.obj.op == "call":
             r, _ = resolve_callee(self.ev, c.obj)
             if r is not None and r.qual.endswith(".metadata") and c.obj.args:
@@ -88,6 +96,33 @@ class Kind:
             if k == "R":
                 return False
         return None
+
+    def dtype_kind(self, d):
+        """kind of the arrays a dtype expression describes: X.dtype / result_type(X, ..) / a literal scalar type"""
+        if d is None:
+            return "?"
+        if d.op == "seq":
+            return self.dtype_kind(d.value)
+        if d.op == "attr" and d.name == "dtype":
+            return self.of(d.obj)
+        if d.op == "call":
+            r, pre = resolve_callee(self.ev, d)
+            if r is not None and is_numpy_callable(r) and base_name(r) == "result_type":
+                ks = [self.dtype_kind(a) if (a.op == "attr" and a.name == "dtype") else self.of(a) for a in list(pre) + list(d.args)]
+                return jk(*ks) if ks else "?"
+            if r is not None and r.qual.endswith(".vspace") and False:
+                return "?"
+        if d.op == "attr" and d.name == "dtype" and d.obj.op == "call":
+            return self.of(d.obj)
+        if d.op == "ref":
+            q = d.ref.qual.rsplit(".", 1)[-1]
+            if q in ("complex", "complex64", "complex128", "clongdouble", "cdouble", "csingle", "complex_"):
+                return "C"
+            if q in ("float", "float16", "float32", "float64", "longdouble", "double", "single", "int", "int32", "int64", "bool", "float_"):
+                return "R"
+        if d.op == "const" and isinstance(d.value, str):
+            return "C" if d.value.startswith(("complex", "c", "D", "F", "G")) else "R"
+        return "?"
 
     def _of(self, t):
         o = t.op
@@ -167,11 +202,15 @@ class Kind:
         if fn.op == "attr":
             if fn.name in ("conj", "conjugate", "copy", "reshape", "ravel", "transpose", "swapaxes", "sum", "mean", "squeeze", "flatten"):
                 return self.of(fn.obj)
+            if fn.name == "astype" and t.args:
+                return self.dtype_kind(t.args[0])
             if fn.name == "zeros":
                 return "?"
             return "?"
         ref, pre = resolve_callee(self.ev, t)
         args = list(pre) + list(t.args)
+        if ref is not None and ref.qual in PARAM_KIND and len(args) >= 2:
+            return self.dtype_kind(args[1])
         if ref is not None and is_numpy_callable(ref):
             bn = base_name(ref)
             ns, _, name = ref.qual.rpartition(".")
@@ -279,7 +318,7 @@ def _run(ctx, world, mode, rule, restrict=None):
     for e in world.table.entries:
         if e.mode != mode or e.spec != "maker" or not world.in_numpy_scope(e) or not isinstance(e.argnum, int):
             continue
-        if not accepts_complex(world, e.prim):
+        if not accepts_complex(world, e.prim) and e.prim.qual not in PARAM_KIND:
             continue
         bn = base_name(e.prim)
         if restrict is not None and bn not in restrict:
@@ -298,7 +337,9 @@ def _run(ctx, world, mode, rule, restrict=None):
         for combo in itertools.product("RC", repeat=len(nums)):
             assign = dict(zip(nums, combo))
             ak = ans_kind(world, e.prim, assign)
-            if ak is None and mode == "vjp" and is_numpy_callable(e.prim) and base_name(e.prim) in VALUE_DEPENDENT_KIND:
+            if e.prim.qual in PARAM_KIND:
+                aks = ["R", "C"]  # x.astype(float) of a complex x, x.astype(complex) of a real x, ...
+            elif ak is None and mode == "vjp" and is_numpy_callable(e.prim) and base_name(e.prim) in VALUE_DEPENDENT_KIND:
                 # the output kind depends on the values (eig of a real matrix may be complex): the cotangent must have
                 # the argument's kind for EITHER output kind
                 aks = ["C"] if "C" in combo else ["R", "C"]
@@ -327,7 +368,8 @@ def _run(ctx, world, mode, rule, restrict=None):
                 else:
                     K = Kind(world, assign, assign[e.argnum], ak)
                     want = ak
-                ks_ak = {"?" if k == "B" else k for k in {K.of(leaf) for _, leaf in leaves(world.ev, res_)}}
+                feasible = [leaf for conds, leaf in leaves(world.ev, res_) if not any(K.truth(c_) is (not pol_) for c_, pol_ in conds)]
+                ks_ak = {"?" if k == "B" else k for k in {K.of(leaf) for leaf in feasible}}
                 if len(aks) > 1 and "?" not in ks_ak and ks_ak != {want}:
                     bad.append((assign, ks_ak, want))  # definite for this possible output kind
                 ks |= ks_ak
@@ -348,7 +390,7 @@ def _run(ctx, world, mode, rule, restrict=None):
                 inst,
                 inst,
                 e.loc,
-                f"with {desc}: the {what} is {'complex' if 'C' in ks else 'real'} but {tgt} is {'complex' if want == 'C' else 'real'} (no match_complex / kind cast aimed at it on this path)",
+                f"with {desc}: the {what} is {('real on one path and complex on another' if {'R', 'C'} <= set(ks) else ('complex' if 'C' in ks else 'real'))} but {tgt} is {'complex' if want == 'C' else 'real'} (no match_complex / kind cast aimed at it on this path)",
                 desc,
                 sample=nf,
             )
